@@ -24,7 +24,7 @@ import textwrap
 
 from . import common
 
-OUT = pathlib.Path("/verif/lean/YadismModel/Generated/Effects.lean")
+OUT = common.LEAN / "YadismModel" / "Generated" / "Effects.lean"
 SRC_ROOT = "/repo/src/"
 
 MUTATORS = {"pop", "update", "setdefault", "clear", "popitem", "append", "extend", "insert", "remove", "sort", "reverse", "add", "discard", "__setitem__", "__delitem__", "resize", "fill", "put", "itemset", "setflags"}
